@@ -113,7 +113,7 @@ PROPS = {
                   "never-initialised member state or by a caller-chosen value that no live check keeps away from zero; every subscript of a parameter / local vector whose index is affine in "
                   "counted-loop variables and whose size is fixed by a live check or by construction stays inside the container (G7); a user-provided "
                   "assignment operator stores nothing computed from a member of the destination that it has not yet replaced (Y1: a "
-                  "polymorphic member cloned under the old object's type tag is cast to the wrong class)",
+                  "polymorphic member cloned under the old object's type tag is cast to the wrong class); the iterator a standard search returns is dereferenced only behind a live found-check (Q2)",
         "not_decided": "value-range safety of index arithmetic outside the affine fragment of G7 (subscripts of members without a constructor-established size, of "
                        "results of solve(), indices loaded from data or formed from products of variables), termination and complexity "
                        "(except the C15 clause)",
@@ -166,7 +166,7 @@ PROPS = {
         "clause": "all structural preconditions of race freedom: no mutable static-storage state that is not thread_local; "
                   "every const operation of every transform-plan class is free of writes to storage reachable from the object; "
                   "distinct objects are distinct state - no class that is copied member-wise modifies what a shared_ptr member "
-                  "points to",
+                  "points to; a pointer shared through an atomic is never read under memory_order_relaxed (P2g); no library function sets the per-thread floating-point mode (P4)",
         "not_decided": "that each call returns what it would return single-threaded (follows from race freedom, not checked as values); "
                        "thread safety of the standard library itself",
         "explanation": "Free functions and distinct objects can share memory only through static storage (P2 enumerates every "
@@ -209,7 +209,7 @@ PROPS = {
         "rules": ["L1", "G2", "S2", "R2", "N5", "N6", "M2"],
         "clause": "with the lock set no path of LmsFilter/RlsFilter::process writes the coefficient vector (or the RLS inverse "
                   "correlation); the flag is written only by set_lock_coeffs; y[k] is computed from the pre-update coefficients and "
-                  "e[k] is formed from d and that y before the update; the x/d length guard dominates all indexing",
+                  "e[k] is formed from d and that y before the update; the x/d length guard dominates all indexing; a lazily derived copy of the coefficients is marked by every update and the mark is cleared only where the copy has been recomputed (M2)",
         "not_decided": "the identity e = d - y as arithmetic, convergence, the RLS normal-equation equivalence",
         "explanation": "L1 works on the CFG facts (lock test outcomes that dominate each write) and the statement order of the "
                        "sample loop of all four instantiations; G2 (restricted to this property: the two process methods) checks the "
@@ -230,7 +230,7 @@ PROPS = {
         "title": "Prime and power-of-two helpers agree with number theory and terminate",
         "rules": ["N2", "N2s", "M1", "Q2"],
         "clause": "no trial-division bound is computed in a type that can wrap for a 32-bit argument (necessary for correctness and "
-                  "for termination within sqrt(n) steps above 65521^2)",
+                  "for termination within sqrt(n) steps above 65521^2); nothing a prime helper keeps between calls carries a cursor from one call into the next (M1); a table search is dereferenced only where a live check keeps the argument inside the table (Q2)",
         "not_decided": "agreement with number theory below the wrap threshold (value-level), nextpow2/ispow2",
         "explanation": "N2 enumerates every relational comparison in every function of the prime machinery reachable from "
                        "isprime/factor/nextprime/primes and compares the width of each non-constant product with its operands' widths.",
@@ -251,7 +251,7 @@ PROPS = {
         "title": "Sorting, order statistics and rank correlation match their definitions",
         "rules": ["D1", "N3", "R2", "N5", "N6", "M1"],
         "clause": "each correlation kernel's result (Pearson, Spearman, Kendall, per return statement of corr) may-depends on the "
-                  "contents of both samples - necessary for symmetry and for being the named coefficient at all",
+                  "contents of both samples - necessary for symmetry and for being the named coefficient at all; no rank vector / sorted copy is kept between calls under a key that omits the contents it was computed from (M1)",
         "not_decided": "correctness of sort/median/medfilt, the numerical value of the coefficients, ties",
         "explanation": "D1 computes flow-insensitive may-dependence with control dependence inside each kernel; an absent "
                        "dependence on a sample's contents is definite because the analysis over-approximates.",
